@@ -2038,3 +2038,75 @@ func rulesTraceStart(c *Ctx, r *Report) {
 	}
 	r.floor("T-START", n, 1, "calls of the best-cell search in Local's traceback")
 }
+
+// rulesStepsAsTraced (AS-TRACED): what Global and Local return as steps and score is what their traceback produced,
+// as it is: the steps value goes nowhere but into the return (no pass through a "normalising" helper, no edit in
+// place), and the score returned is the traceback's score. Re-ordering or merging steps after the walk makes them
+// describe another path than the one that was scored.
+func rulesStepsAsTraced(c *Ctx, r *Report) {
+	n := 0
+	for _, spec := range []struct{ name, role string }{{"Global", "align.traceGlobal"}, {"Local", "align.traceLocal"}} {
+		a := loadAlign(c, r, spec.name, spec.role)
+		if a == nil {
+			continue
+		}
+		where := fname(a.entry)
+		nres := a.trace.Call.Signature().Results().Len()
+		// the extracts of the trace call
+		ex := map[int]*ssa.Extract{}
+		for _, ref := range *a.trace.Referrers() {
+			if e, ok := ref.(*ssa.Extract); ok {
+				ex[e.Index] = e
+			}
+		}
+		var bad []string
+		nRet := 0
+		instrs(a.entry, func(in ssa.Instruction) {
+			rt, ok := in.(*ssa.Return)
+			if !ok {
+				return
+			}
+			nRet++
+			ops := retOperands(rt)
+			if len(ops) < 2 {
+				bad = append(bad, "a return with fewer than two results at "+c.pos(rt.Pos()))
+				return
+			}
+			// a named result assigned once stands for what was assigned
+			for i, o := range ops {
+				if ld, ok := o.(*ssa.UnOp); ok && ld.Op == token.MUL {
+					if al, ok := ld.X.(*ssa.Alloc); ok {
+						if v := cellValue(al); v != nil {
+							ops[i] = v
+						}
+					}
+				}
+			}
+			if e0, ok := ex[0]; !ok || ops[0] != ssa.Value(e0) {
+				bad = append(bad, "the steps returned at "+c.pos(rt.Pos())+" are "+a.es.expr(ops[0]).String()+", not the traceback's steps as they are")
+			}
+			if eS, ok := ex[nres-1]; !ok || ops[len(ops)-1] != ssa.Value(eS) {
+				bad = append(bad, "the score returned at "+c.pos(rt.Pos())+" is not the traceback's score as it is")
+			}
+		})
+		if e0, ok := ex[0]; ok {
+			for _, ref := range *e0.Referrers() {
+				switch x := ref.(type) {
+				case *ssa.Return, *ssa.DebugRef:
+				case *ssa.Store:
+					if _, isAl := x.Addr.(*ssa.Alloc); !isAl || x.Val != ssa.Value(e0) {
+						bad = append(bad, "the traceback's steps are stored at "+c.pos(ref.Pos()))
+					}
+				default:
+					bad = append(bad, fmt.Sprintf("the traceback's steps are also used by %T at %s", ref, c.pos(ref.Pos())))
+				}
+			}
+		}
+		n++
+		sort.Strings(bad)
+		r.check(len(bad) == 0 && nRet > 0, "AS-TRACED", where, "steps and score as traced", c.pos(a.trace.Pos()),
+			"the steps and the score returned are the traceback's own results, handed on unchanged",
+			"what is returned is not what the traceback produced: "+strings.Join(bad, "; ")+" — the steps no longer describe the path that was scored")
+	}
+	r.floor("AS-TRACED", n, 2, "Global and Local")
+}
